@@ -8,7 +8,7 @@ RULE = ("harness c03: real secrets, keys and ciphertexts built with the library 
         "NTT120Ref/Avx (radices 5..45); every public entry point of the key-switching family: glwe/gglwe/lwe key-switch (in/out of place), "
         "the 8 automorphism variants over every Galois element of (Z/2NZ)* for N <= 32, automorphism of automorphism keys, trace from every "
         "start level, packing of slot subsets (N <= 16, every log_gap_out), lwe_from_glwe at every index, glwe_from_lwe, sample extraction, "
-        "a grid of gadget shapes on one encrypted message; ranks 1..3 in and out, dsize 1..4 with a_size not a multiple of dsize, dnum "
+        "a grid of gadget shapes on one encrypted message; the GGSW family with the tensor key of the public generator (ggsw_from_gglwe, ggsw_expand_row, ggsw_keyswitch(_assign), ggsw_automorphism(_assign): every (row, column) cell, rank 3 in every second round) and the rows of the tensor key itself (3091); ranks 1..3 in and out, dsize 1..4 with a_size not a multiple of dsize, dnum "
         "smaller/equal/larger than needed, three-way radix mismatch, inputs with uniform / extreme / alternating / sparse digits, binary and "
         "ternary secrets.  Level L1 (3001/3002): output limbs recomputed bit for bit by the extracted model from the input limbs and the key "
         "dumped before preparation.  Level L2 (all): exact phases under the exact secrets (read through decryption), expected image, "
